@@ -265,6 +265,7 @@ CloseOne == /\ open # <<>>
 RootAttrs(n_) == IF Focus \in {"paint", "mixed"} /\ MaybeN(401, 30)
                  THEN Opt(402, "fill", Colors \cup {"none"}, 70) \o Opt(403, "fill-rule", {"evenodd"}, 20)
                       \o Opt(404, "fill-opacity", {1, 2}, 20)
+                      \o (IF Focus = "paint" THEN Opt(405, "opacity", {1, 2}, 30) ELSE <<>>)
                       \o (IF Focus = "mixed" THEN Opt(405, "opacity", {1, 2}, 35) \o Opt(406, "stroke", Colors, 20)
                                                   \o Opt(407, "stroke-width", {2}, 20)
                                                   \o Opt(408, "display", {"inline"}, 10)
